@@ -169,6 +169,12 @@ class StandardRequestHandler(ControlRequestHandler):
                     self.handle_simple_data_request(m, transmitter, 0, length=2)
 
                 with m.State('CLEAR_FEATURE'):
+                    # Tracks whether the last thing sent to the host was our status-stage ZLP. Handshakes
+                    # are broadcast to all endpoints; so an ACK can belong to another endpoint's transaction.
+                    status_sent = Signal()
+                    with m.If(interface.tokenizer.new_token):
+                        m.d.usb += status_sent.eq(0)
+
                     # Provide an response to the STATUS stage.
                     with m.If(interface.status_requested):
 
@@ -181,9 +187,11 @@ class StandardRequestHandler(ControlRequestHandler):
                             m.d.comb += handshake_generator.stall.eq(1)
                         with m.Else():
                             m.d.comb += self.send_zlp()
+                            m.d.usb  += status_sent.eq(1)
 
-                    # Accept the relevant value after the packet is ACK'd...
-                    with m.If(interface.handshakes_in.ack):
+                    # Accept the relevant value after our status packet is ACK'd...
+                    with m.If(interface.handshakes_in.ack & status_sent):
+                        m.d.usb += status_sent.eq(0)
                         m.d.comb += [
                             interface.clear_endpoint_halt.enable   .eq(1),
                             interface.clear_endpoint_halt.direction.eq(setup.index[7]),
